@@ -40,7 +40,14 @@ def gen_cases(tier, seed):
                                       prior=workloads.PRIORS[(i + 1) % len(workloads.PRIORS)])
         cfg = workloads.gen_cfg(rng, pspec, pool='none', n_batch=[16, 100, 50, 4][i % 4], filepath=False)
         cfg['n_eff'] = min(cfg['n_eff'], 400)
-        if tier == 'quick':
+        if i % 8 == 6:
+            # one update per bound: shells are empty in the middle of exploration - an accessor that "tidies up" would
+            # change the run
+            cfg.update(n_update=1, n_live=10, n_batch=1, f_live=1e-3, n_networks=0, n_eff=30, n_shell=1,
+                       n_like_new_bound=None, n_points_min=None, periodic=None)
+        if i % 8 == 6:
+            variants = ['observed', 'again', 'file']
+        elif tier == 'quick':
             variants = [['pool2', 'pool3', 'pool4'][i % 3], ['observed', 'vectorised', 'file', 'again', 'verbose',
                                                       'sampler_pool_again', 'pool1'][i % 7]]
         else:
